@@ -501,7 +501,7 @@ bool genRestr(vf::Ctx& c, const DiscreteDistributionInterface& d, bool lowerOnly
 // the mass (never < 5%), so 20 000 draws of the conditional law need about 10^5 variates of the parent law (0.1 s); a randC()
 // that has not delivered them after several 10^6 variates accepts far less than the law puts on the domain: it does not draw from it.
 LAW(D_randC_restricted, RC, 36, 180, 32, "the restricted domain holds at most 90% of the mass: first draws are rejected and re-drawn", 3, true) {
-  static const vector<unsigned> FAM = {2, 6, 2, 2, 2, 2, 1, 0, 0};   // no Constant (one point), no Simple (no continuous version)
+  static const vector<unsigned> FAM = {2, 6, 2, 2, 2, 2, 2, 0, 0};   // no Constant (one point), no Simple (no continuous version)
   uint32_t seed = genSeed(c); Dist D = genDist(c, FAM);
   Restr r; bool ok = genRestr(c, *D.d, D.family == 5, r);
   c.desc << D.text << " restrictToConstraint(" << r.text << ").randC() seed " << seed;
@@ -600,15 +600,18 @@ bool distinct(vector<int> out) { sort(out.begin(), out.end()); return adjacent_f
 LAW(P_structure, RC, 60000, 1500000, 48, "empty source, sample size >= source size, or a zero weight") {
   uint32_t seed = genSeed(c); int kind = static_cast<int>(c.below(12));
   size_t n = static_cast<size_t>(c.irange(0, 12)), k = static_cast<size_t>(c.irange(0, 14)); bool repl = c.flag();
+  // the `replace` argument is defaulted (documented default: false = without replacement) in pickOne(v), pickOne(v, w), getSample(v, out),
+  // getSample(v, w, out): half of the cases without replacement leave the argument out, and the same laws must hold
+  bool dflt = c.flag() && !repl; const char* rtext = dflt ? "(default)" : repl ? "true" : "false";
   RT::setSeed(seed);
   vector<int> v = source(n); const vector<int> orig = v;
   switch (kind) {
     case 0: {  // pickOne(v, replace)
-      c.desc << "pickOne(v[" << n << "], replace=" << repl << ")"; c.nt(n == 0);
-      if (n == 0) { CHECK(emptyRaised([&] { RT::pickOne(v, repl); }), "pickOne on an empty vector returned"); break; }
-      int e = RT::pickOne(v, repl); CHECK(allFrom({e}, n), "picked " << e << " which is not in the source");
+      c.desc << "pickOne(v[" << n << "], replace=" << rtext << ")"; c.nt(n == 0);
+      if (n == 0) { CHECK(emptyRaised([&] { if (dflt) RT::pickOne(v); else RT::pickOne(v, repl); }), "pickOne on an empty vector returned"); break; }
+      int e = dflt ? RT::pickOne(v) : RT::pickOne(v, repl); CHECK(allFrom({e}, n), "picked " << e << " which is not in the source");
       if (repl) CHECK(v == orig, "pickOne(v, true) modified v");
-      else { CHECK(v.size() == n - 1, "pickOne(v, false): size " << v.size()); v.push_back(e); sort(v.begin(), v.end()); CHECK(v == orig, "pickOne(v, false): the remaining elements plus the picked one are not the source"); }
+      else { CHECK(v.size() == n - 1, "pickOne(v, replace=" << rtext << ") on a non-const vector must remove the picked element: size " << v.size() << " after the call, " << n << " before"); v.push_back(e); sort(v.begin(), v.end()); CHECK(v == orig, "pickOne(v, false): the remaining elements plus the picked one are not the source"); }
       break; }
     case 1: {  // pickOne(const v)
       c.desc << "pickOne(const v[" << n << "])"; c.nt(n == 0);
@@ -616,24 +619,25 @@ LAW(P_structure, RC, 60000, 1500000, 48, "empty source, sample size >= source si
       int e = RT::pickOne(orig); CHECK(allFrom({e}, n), "picked " << e << " which is not in the source");
       break; }
     case 2: case 3: {  // getSample unweighted
-      c.desc << "getSample(v[" << n << "], out[" << k << "], replace=" << repl << ")"; c.nt(n == 0 || k >= n);
+      c.desc << "getSample(v[" << n << "], out[" << k << "], replace=" << rtext << ")"; c.nt(n == 0 || k >= n);
       vector<int> out(k, -1);
-      if (!repl && k > n) { bool r = false; try { RT::getSample(orig, out, repl); } catch (IndexOutOfBoundsException&) { r = true; } CHECK(r, "over-long request without replacement did not raise IndexOutOfBoundsException"); break; }
-      if (n == 0 && k > 0) { CHECK(emptyRaised([&] { RT::getSample(orig, out, repl); }), "sampling with replacement from an empty vector returned"); break; }
-      if (n == 0) { emptyRaised([&] { RT::getSample(orig, out, repl); }); break; }  // empty sample of an empty source: returning or EmptyVectorException both allowed
-      RT::getSample(orig, out, repl);
+      auto call = [&] { if (dflt) RT::getSample(orig, out); else RT::getSample(orig, out, repl); };
+      if (!repl && k > n) { bool r = false; try { call(); } catch (IndexOutOfBoundsException&) { r = true; } CHECK(r, "over-long request without replacement (replace=" << rtext << ") did not raise IndexOutOfBoundsException"); break; }
+      if (n == 0 && k > 0) { CHECK(emptyRaised(call), "sampling with replacement from an empty vector returned"); break; }
+      if (n == 0) { emptyRaised(call); break; }  // empty sample of an empty source: returning or EmptyVectorException both allowed
+      call();
       CHECK(out.size() == k && allFrom(out, n), "sample contains an element that is not in the source");
-      if (!repl) { CHECK(distinct(out), "sample without replacement repeats a position"); if (k == n) { sort(out.begin(), out.end()); CHECK(out == orig, "full-size sample without replacement is not a permutation"); } }
+      if (!repl) { CHECK(distinct(out), "sample without replacement (replace=" << rtext << ") repeats a position"); if (k == n) { sort(out.begin(), out.end()); CHECK(out == orig, "full-size sample without replacement is not a permutation"); } }
       break; }
     case 4: case 5: {  // pickOne(v, w, replace)
       vector<double> w = n ? genWeights(c, n) : vector<double>(); const vector<double> w0 = w;
-      c.desc << "pickOne(v[" << n << "], w=" << showV(w) << ", replace=" << repl << ")"; c.nt(n == 0 || hasZero(w));
-      if (n == 0) { CHECK(emptyRaised([&] { RT::pickOne(v, w, repl); }), "weighted pickOne on an empty vector returned"); break; }
-      int e = RT::pickOne(v, w, repl); CHECK(allFrom({e}, n), "picked " << e << " which is not in the source");
+      c.desc << "pickOne(v[" << n << "], w=" << showV(w) << ", replace=" << rtext << ")"; c.nt(n == 0 || hasZero(w));
+      if (n == 0) { CHECK(emptyRaised([&] { if (dflt) RT::pickOne(v, w); else RT::pickOne(v, w, repl); }), "weighted pickOne on an empty vector returned"); break; }
+      int e = dflt ? RT::pickOne(v, w) : RT::pickOne(v, w, repl); CHECK(allFrom({e}, n), "picked " << e << " which is not in the source");
       CHECK(w0[static_cast<size_t>(e - 100)] > 0, "picked element " << e << " of weight 0");
       if (repl) CHECK(v == orig && w == w0, "pickOne(v, w, true) modified its arguments");
       else {
-        CHECK(v.size() == n - 1 && w.size() == n - 1, "pickOne(v, w, false): sizes " << v.size() << "," << w.size());
+        CHECK(v.size() == n - 1 && w.size() == n - 1, "pickOne(v, w, replace=" << rtext << ") on non-const vectors must remove the picked element and its weight: sizes " << v.size() << "," << w.size() << " after the call, " << n << " before");
         for (size_t i = 0; i < v.size(); ++i) { CHECK(v[i] != e && allFrom({v[i]}, n), "element " << v[i] << " remains"); CHECK(w[i] == w0[static_cast<size_t>(v[i] - 100)], "after removal element " << v[i] << " carries weight " << w[i] << " instead of " << w0[static_cast<size_t>(v[i] - 100)]); }
         CHECK(distinct(v), "remaining elements repeat");
       }
@@ -646,17 +650,18 @@ LAW(P_structure, RC, 60000, 1500000, 48, "empty source, sample size >= source si
       break; }
     case 7: case 8: {  // getSample weighted
       const vector<double> w = n ? genWeights(c, n) : vector<double>(); size_t npos = 0; for (double x : w) npos += x > 0;
-      c.desc << "getSample(v[" << n << "], w=" << showV(w) << ", out[" << k << "], replace=" << repl << ")"; c.nt(n == 0 || k >= n || hasZero(w));
+      c.desc << "getSample(v[" << n << "], w=" << showV(w) << ", out[" << k << "], replace=" << rtext << ")"; c.nt(n == 0 || k >= n || hasZero(w));
       vector<int> out(k, -1);
-      if (!repl && k > n) { bool r = false; try { RT::getSample(orig, w, out, repl); } catch (IndexOutOfBoundsException&) { r = true; } CHECK(r, "over-long weighted request without replacement did not raise IndexOutOfBoundsException"); break; }
-      if (n == 0 && k > 0) { CHECK(emptyRaised([&] { RT::getSample(orig, w, out, repl); }), "weighted sampling with replacement from an empty vector returned"); break; }
-      if (n == 0) { emptyRaised([&] { RT::getSample(orig, w, out, repl); }); break; }
-      RT::getSample(orig, w, out, repl);
+      auto call = [&] { if (dflt) RT::getSample(orig, w, out); else RT::getSample(orig, w, out, repl); };
+      if (!repl && k > n) { bool r = false; try { call(); } catch (IndexOutOfBoundsException&) { r = true; } CHECK(r, "over-long weighted request without replacement (replace=" << rtext << ") did not raise IndexOutOfBoundsException"); break; }
+      if (n == 0 && k > 0) { CHECK(emptyRaised(call), "weighted sampling with replacement from an empty vector returned"); break; }
+      if (n == 0) { emptyRaised(call); break; }
+      call();
       CHECK(out.size() == k && allFrom(out, n), "sample contains an element that is not in the source");
       size_t zeros = 0; for (int x : out) zeros += w[static_cast<size_t>(x - 100)] == 0;
       if (repl) CHECK(zeros == 0, "an element of weight 0 was sampled");
       else {
-        CHECK(distinct(out), "weighted sample without replacement repeats a position");
+        CHECK(distinct(out), "weighted sample without replacement (replace=" << rtext << ") repeats a position");
         if (k <= npos) CHECK(zeros == 0, "an element of weight 0 was sampled although " << npos << " >= " << k << " elements have positive weight");
         else CHECK(k - zeros == npos, "sample larger than the number of positive weights must contain all of them");
         if (k == n) { sort(out.begin(), out.end()); CHECK(out == orig, "full-size weighted sample without replacement is not a permutation"); }
